@@ -7,7 +7,6 @@ import (
 	"encoding/hex"
 	"errors"
 	"fmt"
-	"github.com/elastos/Elastos.ELA/utils"
 	"math/rand"
 	"runtime"
 	"sort"
@@ -23,6 +22,7 @@ import (
 	common2 "github.com/elastos/Elastos.ELA/core/types/common"
 	"github.com/elastos/Elastos.ELA/core/types/payload"
 	"github.com/elastos/Elastos.ELA/dpos/state"
+	"github.com/elastos/Elastos.ELA/utils"
 	"github.com/elastos/Elastos.ELA/utils/verifhook"
 
 	"verif/kit"
@@ -51,7 +51,9 @@ func init() {
 		Require: []string{"calibration_seed_stream_equal", "quiescent_equals_private_source_model",
 			"interleaving_calls", "interleaving_calls_highlevel", "hook_hits", "noise_ops",
 			"canary_checks", "canary_selftest_detects", "canary_unmoved",
-			"control_v2_calls", "control_v2_agree", "sorted_order_checks", "errorpath_calls", "crossprocess_cases"},
+			"control_v2_calls", "control_v2_agree", "sorted_order_checks", "errorpath_calls", "crossprocess_cases",
+			"twin_scenarios", "twin_scenarios_dposv2_active", "twin_heights_compared", "twin_heights_equal", "twin_heights_compared_dposv2_active", "twin_changes_of_next", "twin_changes_of_cand", "twin_changes_of_rnd",
+			"twin_canary_brackets", "twin_canary_unmoved", "twin_gomaxprocs_1_vs_16"},
 		Assumptions: []string{
 			"go1.23.5 with go.mod 'go 1.20': rand.Seed(s);rand.Intn(n) on the global source equals rand.New(rand.NewSource(s)).Intn(n) when nothing interleaves (calibrated in every run; the run is inconclusive otherwise)",
 			"the exported wrappers in dpos/state/verif_rand_export.go call the unexported helpers unchanged; the only inserted line is verifhook.At(\"arbiters.afterSeed\")",
@@ -85,11 +87,11 @@ func runC24(c *kit.Ctx) {
 	c24Interleaving(c)
 	c24Canary(c)
 	c24SortedOrder(c)
-	// Node-level workloads plug in here (each must leave the global source
-	// alone or bracket with armRandCanary):
-	//   c24Twin(c) — same block sequence in two workers with different global
-	//   seeds / GOMAXPROCS; per-height arbiters, candidates, on-duty order and
-	//   random candidate must be identical.
+	// Node-level workload (c24_twin.go): the same recorded block sequence synced by
+	// two full-node processes with different global seeds / GOMAXPROCS / start
+	// times; per-height arbiters, candidates, on-duty order and random candidate
+	// must be identical; consensus-state steps bracketed with the canary.
+	c24Twin(c)
 }
 
 // ---------------------------------------------------------------- calibration
